@@ -21,6 +21,7 @@ pub const K_DEC: u8 = 3;
 pub const REPR_RAW: u8 = 0;
 pub const REPR_STRUCTURED: u8 = 1;
 pub const REPR_FOREIGN: u8 = 2; // harness type implementing only the three byte getters
+#[allow(dead_code)]
 pub const REPR_FOREIGN_TB: u8 = 3; // harness type that also overrides to_bytes
 pub const N_REPR: u8 = 4;
 
